@@ -1,6 +1,7 @@
 package rules
 
 import (
+	"go/token"
 	"sort"
 	"strings"
 
@@ -217,6 +218,40 @@ func runC27(c *an.Ctx) {
 				c.Add(ok, "R3", "env-value:SERF_TAG", sp, "each tag becomes SERF_TAG_<upper-cased, sanitised name>=<value> (name "+short(an.Path(args[0]))+")", "argument provenance")
 			}
 		}
+		// the same variable built by concatenation: "SERF_TAG_" + name + "=" + value
+		an.Instrs(inv, func(in ssa.Instruction) {
+			b, ok := in.(*ssa.BinOp)
+			if !ok || b.Op != token.ADD {
+				return
+			}
+			for _, r := range *b.Referrers() {
+				if rb, isB := r.(*ssa.BinOp); isB && rb.Op == token.ADD {
+					return // not the outermost concatenation
+				}
+			}
+			var parts []ssa.Value
+			var flat func(v ssa.Value)
+			flat = func(v ssa.Value) {
+				if bb, isB := v.(*ssa.BinOp); isB && bb.Op == token.ADD {
+					flat(bb.X)
+					flat(bb.Y)
+					return
+				}
+				parts = append(parts, v)
+			}
+			flat(b)
+			if len(parts) != 4 {
+				return
+			}
+			p0, ok0 := an.ConstString(parts[0])
+			p2, ok2 := an.ConstString(parts[2])
+			if !ok0 || !ok2 || p0 != "SERF_TAG_" || p2 != "=" {
+				return
+			}
+			cs["SERF_TAG_%s=%s"] = true
+			okT := strings.HasPrefix(an.Path(parts[1]), "regexp.(*Regexp).ReplaceAllString(g:sanitizeTagRegexp,strings.ToUpper(next(range($2.Tags))#1),c:\"_\")") && an.Path(parts[3]) == "next(range($2.Tags))#2"
+			c.Add(okT, "R3", "env-value:SERF_TAG", in, "each tag becomes SERF_TAG_<upper-cased, sanitised name>=<value> (name "+short(an.Path(parts[1]))+")", "operand provenance of the concatenation")
+		})
 		for _, k := range []string{"SERF_USER_LTIME=%d", "SERF_QUERY_LTIME=%d", "SERF_TAG_%s=%s"} {
 			c.Add(cs[k], "R3", "env:"+k, inv, strings.Split(k, "=")[0]+" is set", "string constant enumeration")
 		}
